@@ -158,7 +158,7 @@ func snapPhase(rep *report, seed uint64, models, nops, only int) {
 			}
 			if h1 != h0 {
 				field, detail := findSnapDiff(seed, idx, k, nops)
-				rep.fail("snapshot:"+t.recvType(op)+"."+op.class+":"+field,
+				rep.fail("snapshot-write:"+field,
 					fmt.Sprintf("model=%d op#%d %s wrote shared state: %s (replay: VERIF_PHASE=snap VERIF_ONLY=%d)", idx, k, op.desc, detail, idx))
 				h0 = h1
 			}
@@ -286,6 +286,7 @@ func racePhase(rep *report, seed uint64, models, nops, only int, scratch string)
 				rep.samples = append(rep.samples, fmt.Sprintf("race model 0 (%s) threads=8: goroutine 0 runs %s ; %s ; %s ...", w.desc, lists[0][0].desc, lists[0][1].desc, lists[0][2].desc))
 			}
 		}
+		errorPathStorm(rep, w, r, idx, roots)
 		exportNetworkRound(rep, w, t, r, idx, scratch, roots)
 	}
 }
@@ -344,6 +345,103 @@ func collisionRound(rep *report, i int, scratch string) {
 		rep.fail("exportnetwork-two-workers-one-file",
 			fmt.Sprintf("buses %q and %q are both exported to a_b.dbc by two concurrent workers: the file (%d bytes) is neither bus's DBC (%d / %d bytes) but a mixture of both; first difference from either at byte %d / %d",
 				"a b", "a_b", len(got), len(outs[0]), len(outs[1]), firstDiff(got, outs[0]), firstDiff(got, outs[1])))
+	}
+}
+
+// errorPathStorm: every goroutine hammers the ERROR paths of the lookups on the same shared
+// objects (this is where the hint fields Node.intErrNum / SignalEnum.parErrID are read and,
+// when set, cleared): GetAttributeAssignment / GetValue / GetSignal / GetSignalByName /
+// GetNodeInterfaceByNodeName / GetInterface / GetSentMessageByName misses and refused conversions.
+func errorPathStorm(rep *report, w *world, r *rng, idx int, roots []any) {
+	var calls []func() string
+	for _, n := range w.nodes {
+		n := n
+		calls = append(calls, func() string { _, err := n.GetAttributeAssignment("missing"); return errSig(err) })
+		calls = append(calls, func() string { _, err := n.GetInterface(-1); return errSig(err) })
+		calls = append(calls, func() string { _, err := n.GetInterface(99); return errSig(err) })
+	}
+	for _, e := range w.enums {
+		e := e
+		calls = append(calls, func() string { _, err := e.GetValue("missing"); return errSig(err) })
+	}
+	for _, m := range w.msgs {
+		m := m
+		calls = append(calls, func() string { _, err := m.GetSignal("missing"); return errSig(err) })
+		calls = append(calls, func() string { _, err := m.GetSignalByName("missing"); return errSig(err) })
+		calls = append(calls, func() string { _, err := m.GetAttributeAssignment("missing"); return errSig(err) })
+	}
+	for _, b := range w.buses {
+		b := b
+		calls = append(calls, func() string { _, err := b.GetNodeInterfaceByNodeName("missing"); return errSig(err) })
+		calls = append(calls, func() string { _, err := b.GetAttributeAssignment("missing"); return errSig(err) })
+	}
+	for _, ni := range w.ifaces {
+		ni := ni
+		calls = append(calls, func() string { _, err := ni.GetSentMessageByName("missing"); return errSig(err) })
+	}
+	for _, sg := range w.sigs {
+		sg := sg
+		calls = append(calls, func() string { _, err := sg.GetAttributeAssignment("missing"); return errSig(err) })
+		calls = append(calls, func() string {
+			_, e1 := sg.ToStandard()
+			_, e2 := sg.ToEnum()
+			_, e3 := sg.ToMultiplexer()
+			return errSig(e1) + errSig(e2) + errSig(e3)
+		})
+	}
+	for _, a := range w.attrs {
+		a := a
+		calls = append(calls, func() string {
+			_, e1 := a.ToString()
+			_, e2 := a.ToInteger()
+			_, e3 := a.ToFloat()
+			_, e4 := a.ToEnum()
+			return errSig(e1) + errSig(e2) + errSig(e3) + errSig(e4)
+		})
+	}
+	safe := func(f func() string) (res string) {
+		defer func() {
+			if p := recover(); p != nil {
+				res = "PANIC:" + fmt.Sprint(p)
+			}
+		}()
+		return f()
+	}
+	seq := make([]string, len(calls))
+	for i, f := range calls {
+		seq[i] = safe(f)
+	}
+	h0, _ := snapshotHash(roots)
+	const T = 8
+	start := make(chan struct{})
+	var wg sync.WaitGroup
+	bad := make([]string, T)
+	for g := 0; g < T; g++ {
+		gr := r.fork(uint64(500 + g))
+		wg.Add(1)
+		go func(g int) {
+			defer wg.Done()
+			<-start
+			for k := 0; k < 3*len(calls); k++ {
+				i := gr.intn(len(calls))
+				if got := safe(calls[i]); got != seq[i] && bad[g] == "" {
+					bad[g] = fmt.Sprintf("call %d: sequential %q, concurrent %q", i, seq[i], got)
+				}
+			}
+		}(g)
+	}
+	close(start)
+	wg.Wait()
+	h1, _ := snapshotHash(roots)
+	rep.counters["errorpath_storm_rounds"]++
+	rep.counters["race_ops"] += T * 3 * len(calls)
+	if h1 != h0 {
+		rep.fail("errorpath-storm-snapshot-changed", fmt.Sprintf("model=%d: the shared model differs after concurrent failing lookups", idx))
+	}
+	for _, b := range bad {
+		if b != "" {
+			rep.fail("errorpath-storm-result", fmt.Sprintf("model=%d %s", idx, b))
+		}
 	}
 }
 
